@@ -333,6 +333,9 @@ func RunHistory(rng *common.Rng, cfg Config) (*Run, error) {
 			fail("C01", "illegal response stream: "+stripNums(e), e+" | "+strings.Join(obs.Raw, " / "))
 		}
 		if o.Cmd == "store" && o.Silent {
+			// what the client assumes after a .SILENT store: the flags it sent, the forward flags taken as the pair the
+			// server makes of them (as the model's CStore carries them)
+			sent := forwardClosure(o.Flags)
 			for _, p := range o.Ps {
 				if p >= 1 && p <= len(m.Cells) && m.Cells[p-1].HasF {
 					c := &m.Cells[p-1]
@@ -344,11 +347,11 @@ func RunHistory(rng *common.Rng, cfg Config) (*Run, error) {
 					}
 					switch o.FOp {
 					case "add":
-						c.Flags = union(c.Flags, o.Flags)
+						c.Flags = union(c.Flags, sent)
 					case "rem":
-						c.Flags = setOf(without(c.Flags, o.Flags...))
+						c.Flags = setOf(without(c.Flags, sent...))
 					case "set":
-						c.Flags = setOf(o.Flags)
+						c.Flags = setOf(sent)
 						if rec {
 							c.Flags = union(c.Flags, []int{0})
 						}
